@@ -340,7 +340,11 @@ def run(ctx):
             vals = {"iarf": ["add", "remove", "force"], "bool": ["true"], "unum": [1, 3], "num": [1]}.get(r["kind"], [])
             for v in vals:
                 pool = [x for x in inputs if x[1] == "OC"] if k.startswith("mod_sort_oc") else inputs
-                for inp, lang, txt, name in rng.sample(pool, min(len(pool), 6 if thorough else 2)):
+                # always on the first generated C++ and C program (they carry the construct blocks EXTRA_C / EXTRA_CPP), plus random inputs
+                must = [next((x for x in pool if x[1] == lg and x[3].startswith("gen")), None) for lg in ("CPP", "C")]
+                picked = [x for x in must if x is not None]
+                picked += [x for x in rng.sample(pool, min(len(pool), 6 if thorough else 2)) if x not in picked]
+                for inp, lang, txt, name in picked:
                     o = {k: v}
                     jobs.append(pipeline.Job(name, sc.cfg(None, o), inp, lang, {"opts": o, "text": txt, "kind": "single"}))
         # (b) random combinations
